@@ -563,6 +563,15 @@ class Evaluator:
                     res = self.deref_val(st, args[0])
                 if d in ('core::convert::AsMut::as_mut', 'core::ops::DerefMut::deref_mut', 'core::borrow::BorrowMut::borrow_mut'):
                     mut_paths = []   # the borrow itself does not write
+            elif d in ('core::mem::replace', 'std::mem::replace') and len(args) == 2 and args[0][0] == 'ref' and args[0][2] and len(args[0]) == 3:
+                # `mem::replace(&mut place, v)`: a store of v that hands the old value back
+                path = args[0][1]
+                res = self.read(st, path)
+                val = self.deref_val(st, args[1]) if args[1][0] == 'ref' else args[1]
+                self.write(st, path, val)
+                if self._is_memory(path):
+                    st.events.append({'kind': 'write', 'block': blk, 'path': path, 'value': val, 'span': term['span']['at'], 'loops': st.loops_seen})
+                mut_paths = []
             elif d in OP_TRAITS and len(args) == 2:
                 res = mk_bin(OP_TRAITS[d], self.deref_val(st, args[0]), self.deref_val(st, args[1]))
             elif d in CMP_TRAITS and len(args) == 2:
